@@ -1,6 +1,6 @@
 (* Suites.v -- dispatcher over the correspondence suites.  Everything here is
    executable; it is extracted to OCaml and also evaluated inside Coq. *)
-From CoapV Require Import Base Suite01 Suite05 Suite06 Suite07 Suite13 Suite14 Suite19.
+From CoapV Require Import Base Suite01 Suite05 Suite06 Suite07 Suite13 Suite14 Suite16 Suite19.
 
 Definition run (suite : N) (s : list N) : list N :=
   match suite with
@@ -13,6 +13,9 @@ Definition run (suite : N) (s : list N) : list N :=
   | 130 => run130 s
   | 140 => run140 s
   | 150 => run150 s
+  | 160 => run160 s
+  | 170 => run170 s
+  | 180 => run180 s
   | 190 => run190 s
   | _ => [998]
   end.
@@ -30,6 +33,9 @@ Definition verdict (suite : N) (s out : list N) : bool :=
   | 130 => verdict130 s out
   | 140 => verdict140 s out
   | 150 => verdict150 s out
+  | 160 => verdict160 s out
+  | 170 => verdict170 s out
+  | 180 => verdict180 s out
   | 190 => verdict190 s out
   | _ => false
   end.
@@ -46,6 +52,9 @@ Definition classify (suite : N) (s out : list N) : N :=
   | 130 => classify130 s
   | 140 => classify140 s
   | 150 => classify150 s
+  | 160 => classify160 s
+  | 170 => classify170 s
+  | 180 => classify180 s
   | 190 => classify190 s
   | _ => 0
   end.
